@@ -80,12 +80,29 @@ def parseShape (s : String) : Option KeyTree :=
   | some (t, []) => some t
   | _ => none
 
+/-- The verdict field of a key: `0`/`1` for a simple key; for a multisig key `M<n>:<bits>` — the
+number of signatures in the decoded multi-signature and per position "non-empty and verifies under
+the member key" — composed here by `Ledger.multisigOk` (never the real multisig `VerifyBytes`). -/
+def parseVerdict (shape : KeyTree) (s : String) : Option Bool :=
+  if s = "1" then some true else if s = "0" then some false
+  else if s.startsWith "M" then
+    match (s.drop 1).toString.splitOn ":" with
+    | [n, bits] =>
+      let nKeys := match shape with | .node ks => ks.length | .leaf => 0
+      let bs := if bits = "-" then [] else bits.toList.map (· == '1')
+      match n.toInt? with
+      | some i => some (i ≥ 0 && multisigOk nKeys i.toNat bs)
+      | none => none
+    | _ => none
+  else none
+
 def parseKey (s : String) : Option DKey :=
   match s.splitOn "/" with
   | [id, a, sh, ok] => do
     let ad ← parseAddr a
     let t ← parseShape sh
-    pure ⟨id, ad, t, ok = "1"⟩
+    let v ← parseVerdict t ok
+    pure ⟨id, ad, t, v⟩
   | _ => none
 
 def parseAccts (keys : List DKey) (s : String) : Option (List (Addr × Account DKey)) :=
@@ -305,7 +322,16 @@ def step (mode : Mode) (st : St) (pre post : List String) : St × Verdict :=
                      (preAccts.all fun (a, acc) => a == payer || a == fc ||
                         (match pa.find? (·.1 = a) with | some (_, acc') => renderCoins acc'.coins == renderCoins acc.coins | none => false)))
                | _, _ => true) then
-            some ("fee-not-exact", s!"raw={ln.raw} ante handler did not move exactly the fee from the verifying key's account")
+            let moved : List String :=
+              match parseAccts ln.keys pacc with
+              | some pa => preAccts.filterMap fun (a, acc) =>
+                  match pa.find? (·.1 = a) with
+                  | some (_, acc') => if renderCoins acc'.coins == renderCoins acc.coins then none
+                                      else some s!"{Bytes.toHex a}:{renderCoins acc.coins}->{renderCoins acc'.coins}"
+                  | none => some s!"{Bytes.toHex a}:removed"
+              | none => []
+            let signerAddr := match ln.keys.find? (fun k => s!"pass:{k.id}" = probe) with | some k => Bytes.toHex k.addr | none => "?"
+            some ("fee-not-exact", s!"raw={ln.raw} the ante handler must debit exactly the fee {renderCoins fee} from the account of the key that verified ({signerAddr}), credit the fee collector and touch nobody else; balances changed by the real ante handler: {moved}")
           else if mode == .c15 && !implRejected &&
               (match ln.tx with
                | some tx => Coins.sumOf tx.fee upokt < getFee ln.world.params tx.msg
